@@ -94,12 +94,12 @@ func genC03(rng *rand.Rand, tier string) *sim.Plan {
 }
 
 type c03msg struct {
-	pid     uint16
-	payload string
-	qos     byte
-	state   string // pub (seen, no ack sent) | rec (PUBREC sent) | relseen (PUBREL seen, PUBCOMP not sent)
-	ackSent bool   // final ack (PUBACK / PUBCOMP) sent but not yet confirmed by a quiescent point
-	ackStep int
+	pid         uint16
+	payload     string
+	qos         byte
+	state       string // pub (seen, no ack sent) | rec (PUBREC sent) | relseen (PUBREL seen, PUBCOMP not sent)
+	ackSent     bool   // final ack (PUBACK / PUBCOMP) sent but not yet confirmed by a quiescent point
+	ackStep     int
 	recSentStep int
 }
 
@@ -142,9 +142,9 @@ func oracleC03(p *sim.Plan, out *sim.Outcome) []sim.Violation {
 		}
 	}
 	seen := map[string]bool{}
-	completed := map[string]bool{}   // final ack sent and confirmed by a quiescent point on a live connection
-	var pendingConfirm []*c03msg     // final ack sent, connection still up, waiting for a quiescent point
-	maybeAcked := map[string]bool{}  // final ack sent but the connection ended before a quiescent point
+	completed := map[string]bool{}  // final ack sent and confirmed by a quiescent point on a live connection
+	var pendingConfirm []*c03msg    // final ack sent, connection still up, waiting for a quiescent point
+	maybeAcked := map[string]bool{} // final ack sent but the connection ended before a quiescent point
 	curConn, connackStep := -1, -1
 	connLimit := limit
 	// after a resume: expected retransmission prefix
@@ -368,4 +368,3 @@ func oracleC03(p *sim.Plan, out *sim.Outcome) []sim.Violation {
 	}
 	return vs
 }
-
